@@ -1,4 +1,4 @@
-From Verif Require Import Model.Bytes Model.Obs Model.Catalogue.
+From Verif Require Import Model.Bytes Model.Obs Model.Catalogue Model.MetaKV Proofs.CatalogueKeys.
 
 Fixpoint ins_pair (a : N * N) (l : list (N * N)) : list (N * N) :=
   match l with [] => [a] | b :: r => if fst a <=? fst b then a :: l else b :: ins_pair a r end.
@@ -24,3 +24,9 @@ Definition sortu (l : list N) := fold_right ins_n [] l.
 Definition d_model (c : dcase) : obs :=
   OL [OL (map oN (sortu (to_start (d_tabs c) (d_running c)))); OL (map oN (sortu (to_stop (d_tabs c) (d_running c))))].
 Definition d_check (c : dcase) : bool := obs_eqb (d_model c) (d_impl c).
+
+(* where a table's record lives and whether the listing selects it *)
+Record kcase := { kc_name : bytes; kc_impl : obs }.
+Definition k_model (c : kcase) : obs :=
+  OL [obytes (stored_table_name (kc_name c)); obool (glob tables_pattern (stored_table_name (kc_name c)))].
+Definition k_check (c : kcase) : bool := obs_eqb (k_model c) (kc_impl c).
